@@ -1,3 +1,4 @@
+import SqlProofs.GroupLeavesStrict
 import SqlModel.GroupingParse
 import SqlProofs.GroupLeaves
 import SqlProofs.GroupNonEmpty
@@ -58,5 +59,10 @@ theorem cached_value_is_text : type_of% @BK.WF.cached_value_is_text := @BK.WF.ca
 example : BK.WF (BK.runOps (fun hx i => BK.strF hx 10 i) (BK.mkStatement [txt "a", txt ".", txt "b", txt " "])
     [⟨4, .Identifier, 0, 1, true, false⟩, ⟨4, .Identifier, 0, 1, true, true⟩, ⟨5, .Parenthesis, 1, 2, true, false⟩]).1 :=
   BK.statement_history_wf _ (by decide) _ 10 (by decide) (by decide)
+
+/-- (a′) **only `*` tokens are re-typed**: leaf by leaf the value is unchanged, and where the type differs the lexer token was exactly
+`Wildcard` and the leaf is `Operator` (an `Operator` token "re-typed" to `Operator` keeps its type) — all 25 passes, every input -/
+theorem only_wildcard_is_retyped : type_of% @Sql.retype_only_operator_wildcard := @Sql.retype_only_operator_wildcard
+theorem leaves_are_the_lexer_tokens_strict : type_of% @Sql.groupStatement_leaves_strict := @Sql.groupStatement_leaves_strict
 
 end Sql.C03
